@@ -370,11 +370,15 @@ End Batches.
 Definition kinds (a : appender) : Prop :=
   Forall (fun b => nostale (b_h b) /\ nostale (b_fh b)) (a_batches a).
 
+Lemma nonfloat_nostale v : stype_of v <> TFloat -> is_stale_float v = false.
+Proof. destruct v; cbn; [congruence|reflexivity|reflexivity]. Qed.
+
 Lemma push_kinds b e : nostale (b_h b) /\ nostale (b_fh b) ->
   nostale (b_h (push b e)) /\ nostale (b_fh (push b e)).
 Proof.
-  intros [A B]. unfold push. destruct (e_val e) eqn:Ev; cbn [stype_of b_h b_fh]; split; auto;
-    apply Forall_app; split; auto; constructor; auto; rewrite Ev; reflexivity.
+  intros [A B].
+  destruct (flat_push b e) as [(Es & _ & -> & ->)|[(Es & _ & -> & ->)|(Es & _ & -> & ->)]]; split; auto;
+    apply Forall_app; split; auto; constructor; auto; apply nonfloat_nostale; intros F; rewrite F in Es; discriminate.
 Qed.
 
 Lemma add_entry_kinds a e : kinds a -> kinds (add_entry a e).
